@@ -385,3 +385,57 @@ func isIdent(e ast.Expr, name string) bool {
 	id, ok := unparen(e).(*ast.Ident)
 	return ok && id.Name == name
 }
+
+// ---- vocabulary ----
+
+var knownFuncsCache map[string]bool
+
+// isNewHelper: a function declared in the package that is not part of the
+// vocabulary frozen in triage/known_functions.txt (the functions of the tree the
+// rules were written against).  Such helpers (typically extracted by a refactoring)
+// are executed in place by the symbolic interpreter instead of being kept as opaque calls.
+func (c *Ctx) isNewHelper(o types.Object) bool {
+	fn, ok := o.(*types.Func)
+	if !ok || fn.Pkg() == nil || fn.Pkg().Path() != modPath {
+		return false
+	}
+	if knownFuncsCache == nil {
+		knownFuncsCache = map[string]bool{}
+		if b, err := os.ReadFile(filepath.Join(triageDir, "known_functions.txt")); err == nil {
+			for _, l := range strings.Split(string(b), "\n") {
+				if l = strings.TrimSpace(l); l != "" && !strings.HasPrefix(l, "#") {
+					knownFuncsCache[l] = true
+				}
+			}
+		}
+	}
+	if len(knownFuncsCache) == 0 {
+		return false
+	}
+	return !knownFuncsCache[objName(fn)]
+}
+
+// withHelpers returns the declaration itself plus the new (non-vocabulary) helper
+// functions it calls, transitively: AST-level rules look for their constructs in all of them.
+func (c *Ctx) withHelpers(fd *ast.FuncDecl) []*ast.FuncDecl {
+	out := []*ast.FuncDecl{fd}
+	seen := map[*ast.FuncDecl]bool{fd: true}
+	for i := 0; i < len(out) && i < 12; i++ {
+		if out[i].Body == nil {
+			continue
+		}
+		ast.Inspect(out[i].Body, func(n ast.Node) bool {
+			if call, ok := n.(*ast.CallExpr); ok {
+				o := c.Callee(call)
+				if o != nil && c.isNewHelper(o) {
+					if h := c.DeclOf(o); h != nil && !seen[h] {
+						seen[h] = true
+						out = append(out, h)
+					}
+				}
+			}
+			return true
+		})
+	}
+	return out
+}
